@@ -53,6 +53,11 @@ def run_candidate(conc, rp, fn, mod, cand):
     if cand.get("setup"):
         exec(cand["setup"], ns, args)
     out = {"args": {k: repr(v) for k, v in args.items()}}
+    import inspect
+    try:
+        inspect.signature(fn).bind(**args)
+    except TypeError as e:
+        raise RuntimeError("the concrete arguments do not bind to the real function (%s): not a replay" % e)
     signal.signal(signal.SIGALRM, _alarm)
     signal.alarm(int(rp.get("watchdog_s", 10)))
     result = exc = None
@@ -143,7 +148,12 @@ def main():
             continue
         out["violated"] = violated
         verdict["runs"].append(out)
-        if violated:
+        # confirmed only if the clause the solver refuted is the one that fails on the real code
+        want = {"post": "post:%s", "exc-post": "exc-post:%s", "raises-only": "raises-only:%s"}.get(rp.get("kind"))
+        hit = [v for v in violated if want is None or v == want % rp.get("label") or v.startswith("does-not-terminate")]
+        if rp.get("kind") == "variant":
+            hit = [v for v in violated if v.startswith("does-not-terminate")]
+        if hit:
             verdict["status"] = "confirmed-on-real-code"
             verdict["witness"] = out
             break
